@@ -109,13 +109,7 @@ func (d *wrappedSlidingWindowDetector) Check(seq uint64) (func() bool, bool) {
 		}, true
 	}
 
-	diff := int64(d.latestSeq) - int64(seq) //nolint:gosec // GG115 TODO check
-	// Wrap the number.
-	if diff > int64(d.maxSeq)/2 { //nolint:gosec // GG115 TODO check
-		diff -= int64(d.maxSeq + 1) //nolint:gosec // GG115 TODO check
-	} else if diff < -int64(d.maxSeq)/2 { //nolint:gosec // GG115 TODO check
-		diff += int64(d.maxSeq + 1) //nolint:gosec // GG115 TODO check
-	}
+	diff := d.distance(seq)
 
 	if diff >= int64(d.windowSize) { //nolint:gosec // GG115 TODO check
 		// Too old.
@@ -129,6 +123,9 @@ func (d *wrappedSlidingWindowDetector) Check(seq uint64) (func() bool, bool) {
 	}
 
 	return func() bool {
+		// Other numbers may have been accepted since Check: the position of
+		// seq in the window is the one at the time it is accepted.
+		diff := d.distance(seq)
 		latest := false
 		bit := uint(0)
 		if diff < 0 {
@@ -143,4 +140,18 @@ func (d *wrappedSlidingWindowDetector) Check(seq uint64) (func() bool, bool) {
 
 		return latest
 	}, true
+}
+
+// distance returns how far seq lies behind the latest accepted sequence
+// number, in the wrapped sequence space (negative: seq is newer).
+func (d *wrappedSlidingWindowDetector) distance(seq uint64) int64 {
+	diff := int64(d.latestSeq) - int64(seq) //nolint:gosec // GG115 TODO check
+	// Wrap the number.
+	if diff > int64(d.maxSeq)/2 { //nolint:gosec // GG115 TODO check
+		diff -= int64(d.maxSeq + 1) //nolint:gosec // GG115 TODO check
+	} else if diff < -int64(d.maxSeq)/2 { //nolint:gosec // GG115 TODO check
+		diff += int64(d.maxSeq + 1) //nolint:gosec // GG115 TODO check
+	}
+
+	return diff
 }
